@@ -255,6 +255,145 @@ def gen_grid(src):
 
 
 # ------------------------------------------------------------------------------------
+# subclasses of Grid (grid3Scales.py): what production builds
+
+SUB_MAY_OVERRIDE = {"__init__", "changePositionFalloffScale", "decompactify",
+                    "compactificationDerivatives", "compactify"}
+
+
+def find_grid_subclasses(all_sources):
+    """{class name: (file, source)} for every class in the package whose base is Grid"""
+    found = {}
+    for fname, src in all_sources.items():
+        try:
+            tree = ast.parse(src)
+        except SyntaxError:
+            continue
+        for n in tree.body:
+            if isinstance(n, ast.ClassDef) and any(
+                    (isinstance(b, ast.Name) and b.id == "Grid") or
+                    (isinstance(b, ast.Attribute) and b.attr == "Grid") for b in n.bases):
+                found[n.name] = (fname, src)
+    return found
+
+
+def gen_grid_subclass(src, name, grid_src, px):
+    """Facts about a subclass of Grid (fail closed): it inherits the cache state machine and
+    the getters, never writes the cached attributes itself, its constructor hands the
+    momentum scale to Grid.__init__, its position rescaling ends by re-caching, and its own
+    momentum maps / Jacobians are translated (px_pz, px_pp, px_dpz, px_dpp)."""
+    cls = _class(ast.parse(src), name)
+    base = _class(ast.parse(grid_src), "Grid")
+    base_methods = {f.name for f in base.body if isinstance(f, ast.FunctionDef)}
+    if cls.decorator_list or cls.keywords:
+        raise TranslateError("%s: decorators / metaclass" % name)
+    for item in cls.body:
+        if isinstance(item, ast.FunctionDef):
+            if item.decorator_list:
+                raise TranslateError("%s.%s: decorated" % (name, item.name))
+            if item.name in base_methods and item.name not in SUB_MAY_OVERRIDE:
+                raise TranslateError("%s overrides Grid.%s (outside the model)" % (
+                    name, item.name))
+            for n in ast.walk(item):
+                if isinstance(n, ast.Attribute) and isinstance(n.ctx, (ast.Store, ast.Del)) \
+                        and _is_self_attr(n, ["momentumFalloffT"] + ARRAYS + COMPACT):
+                    raise TranslateError("%s.%s writes the cached attribute %s" % (
+                        name, item.name, n.attr))
+                if isinstance(n, ast.Call) and isinstance(n.func, ast.Name) and \
+                        n.func.id in ("setattr", "delattr", "vars"):
+                    raise TranslateError("%s.%s uses %s" % (name, item.name, n.func.id))
+                if isinstance(n, ast.Attribute) and n.attr == "__dict__":
+                    raise TranslateError("%s.%s touches __dict__" % (name, item.name))
+        elif not _is_doc(item):
+            raise TranslateError("%s: class-level statement (line %d)" % (name, item.lineno))
+    # constructor: super().__init__(M, N, <L>, momentumFalloffT, spacing) as LAST statement
+    init = _method(cls, "__init__")
+    last = init.body[-1]
+    ok = isinstance(last, ast.Expr) and isinstance(last.value, ast.Call) and \
+        ast.unparse(last.value.func) == "super().__init__" and not last.value.keywords and \
+        len(last.value.args) == 5 and ast.unparse(last.value.args[3]) == "momentumFalloffT" \
+        and "momentumFalloffT" in [a.arg for a in init.args.args]
+    if not ok:
+        raise TranslateError("%s.__init__ does not end with super().__init__(M, N, L, "
+                             "momentumFalloffT, spacing)" % name)
+    for st in init.body[:-1]:
+        for n in ast.walk(st):
+            if isinstance(n, ast.Name) and n.id == "momentumFalloffT" and \
+                    isinstance(n.ctx, ast.Store):
+                raise TranslateError("%s.__init__ re-binds momentumFalloffT" % name)
+    out = ["(* ---- generated from the Grid subclass %s ---- *)" % name]
+    # position rescaling: any number of self._updateParameters(...) then self._cacheCoordinates()
+    if any(f.name == "changePositionFalloffScale" for f in cls.body
+           if isinstance(f, ast.FunctionDef)):
+        fn = _method(cls, "changePositionFalloffScale")
+        body = [st for st in fn.body if not _is_doc(st)]
+        for st in body[:-1]:
+            if not (isinstance(st, ast.Expr) and isinstance(st.value, ast.Call) and
+                    _is_self_attr(st.value.func, ["_updateParameters"])):
+                raise TranslateError("%s.changePositionFalloffScale: statement (line %d)" % (
+                    name, st.lineno))
+        if not body or ast.unparse(body[-1]) != "self._cacheCoordinates()":
+            raise TranslateError("%s.changePositionFalloffScale does not end by re-caching"
+                                 % name)
+        out.append("Definition %s_changePositionFalloffScale (s : gst) : gst :=\n"
+                   "  let s := cacheCoordinates s in\n  s." % px)
+    else:
+        out.append("Definition %s_changePositionFalloffScale (s : gst) : gst :=\n"
+                   "  changePositionFalloffScale (s_positionFalloff s) s." % px)
+    # momentum lines of the two maps
+    tr = pyrx.ClassTranslator(src, name, ["momentumFalloffT"], [], [], state=False,
+                              prefix=px + "_")
+    out.append(tr.header())
+    own = {f.name for f in cls.body if isinstance(f, ast.FunctionDef)}
+    for meth, names, coq in (("decompactify", ("pz", "pp"), ("pz", "pp")),
+                             ("compactificationDerivatives",
+                              ("dpzdpzCompact", "dppdppCompact"), ("dpz", "dpp"))):
+        if meth not in own:
+            raise TranslateError("%s does not define %s (then it need not be modelled; "
+                                 "unexpected for a subclass in the package)" % (name, meth))
+        fn = _method(cls, meth)
+        if [a.arg for a in fn.args.args] != ["self", "zCompact", "pzCompact", "ppCompact"]:
+            raise TranslateError("%s.%s: parameters" % (name, meth))
+        ret = fn.body[-1]
+        if not (isinstance(ret, ast.Return) and isinstance(ret.value, ast.Tuple) and
+                len(ret.value.elts) == 3 and
+                [ast.unparse(e) for e in ret.value.elts[1:]] == list(names)):
+            raise TranslateError("%s.%s: return value" % (name, meth))
+        if sum(isinstance(n, ast.Return) for n in ast.walk(fn)
+               if not isinstance(n, ast.FunctionDef) or n is fn) < 1:
+            raise TranslateError("%s.%s: return" % (name, meth))
+        top_returns = [st for st in fn.body if isinstance(st, ast.Return)]
+        nested_ctrl = [st for st in fn.body if isinstance(st, (ast.If, ast.For, ast.While,
+                                                              ast.Try, ast.With))]
+        if len(top_returns) != 1 or nested_ctrl:
+            raise TranslateError("%s.%s: control flow" % (name, meth))
+        for k, (loc, cq) in enumerate(zip(names, coq)):
+            stores = [n for n in ast.walk(fn) if isinstance(n, ast.Name) and n.id == loc
+                      and isinstance(n.ctx, ast.Store)]
+            asg = [st for st in fn.body if isinstance(st, ast.Assign) and
+                   len(st.targets) == 1 and isinstance(st.targets[0], ast.Name) and
+                   st.targets[0].id == loc]
+            if len(stores) != 1 or len(asg) != 1:
+                raise TranslateError("%s.%s: %s is not assigned exactly once" % (
+                    name, meth, loc))
+            arg = ("pzCompact", "ppCompact")[k]
+            for n in ast.walk(asg[0].value):
+                if isinstance(n, ast.Name) and n.id not in ("self", "np", arg):
+                    raise TranslateError("%s.%s: %s depends on %s" % (name, meth, loc, n.id))
+            for par in ("pzCompact", "ppCompact"):
+                if any(isinstance(n, ast.Name) and n.id == par and
+                       isinstance(n.ctx, ast.Store) for n in ast.walk(fn)):
+                    raise TranslateError("%s.%s re-binds %s" % (name, meth, par))
+            env = pyrx.Env()
+            env.v[arg] = "r"
+            out.append("Definition %s_%s (e : %s_env) (r : R) : R :=\n  %s." % (
+                px, cq, px, tr.expr(asg[0].value, env)))
+        tr.spans["%s.%s" % (name, meth)] = (fn.lineno, fn.end_lineno,
+                                            pyrx._sha(ast.unparse(fn)))
+    return "\n".join(out), tr
+
+
+# ------------------------------------------------------------------------------------
 # polynomial.py : Polynomial.integrate
 
 def gen_integrate(src):
@@ -333,6 +472,15 @@ def gen_integrate(src):
                     raise TranslateError("integrate: initial weights")
                 w = tr.expr(v.left, env)
                 continue
+            if isinstance(st, ast.Assign) and len(st.targets) == 1 and \
+                    isinstance(st.targets[0], ast.Name) and \
+                    isinstance(st.value, ast.BinOp) and \
+                    isinstance(st.value.op, (ast.Div, ast.Mult)) and \
+                    ast.unparse(st.value.left) == st.targets[0].id and \
+                    st.targets[0].id in ("weights", "integrand"):
+                # x = x * e  is the same update as  x *= e
+                st = ast.copy_location(ast.AugAssign(target=st.targets[0], op=st.value.op,
+                                                     value=st.value.right), st)
             if isinstance(st, ast.AugAssign) and isinstance(st.op, (ast.Div, ast.Mult)):
                 op = "/" if isinstance(st.op, ast.Div) else "*"
                 t = ast.unparse(st.target)
@@ -418,9 +566,15 @@ def _basis_term(node):
 
 
 def gen_getdeltas(src, getters, intw_params):
+    """Statement-by-statement recogniser of getDeltas: EVERY statement must be of one of the
+    recognised forms (single assignment; no control flow except the `deltaF is None`
+    prologue; no augmented / subscript / attribute stores; one final return)."""
     tree = ast.parse(src)
     cls = _class(tree, "BoltzmannSolver")
     fn = _method(cls, "getDeltas")
+    if [a.arg for a in fn.args.args] != ["self", "deltaF"] or fn.args.vararg or \
+            fn.args.kwarg or fn.args.kwonlyargs or fn.decorator_list:
+        raise TranslateError("getDeltas: signature")
     tr = pyrx.ClassTranslator(src, "BoltzmannSolver", [], [], [])
     bcast = {}       # name -> (kind, detail, axes)
     unpacked = {}    # name -> grid attribute (from a getter)
@@ -431,100 +585,199 @@ def gen_getdeltas(src, getters, intw_params):
     fields = None
     dirs = None
     endpoints = None
-    for st in fn.body:
-        if _is_doc(st) or isinstance(st, (ast.If, ast.Return)):
-            if isinstance(st, ast.If) and "deltaFPoly" in ast.unparse(st):
-                raise TranslateError("getDeltas: conditional use of deltaFPoly")
+    bound = {"self": "param", "deltaF": "param"}    # every local and what it is
+    aux = set()          # observers of deltaF (error estimates), only allowed in the return
+    particles_name = None
+    field_name = None
+    deltas_name = None
+    returned = False
+    prologue_seen = False
+
+    def fresh(name, kind, st):
+        if name in bound and not (kind == "bcast" and bound[name] == "unpacked"):
+            raise TranslateError("getDeltas: %s is re-bound (line %d)" % (name, st.lineno))
+        bound[name] = kind
+
+    def only_names(node, allowed, what):
+        for n in ast.walk(node):
+            if isinstance(n, ast.Name) and n.id not in allowed:
+                raise TranslateError("getDeltas: %s uses %s (line %d)" % (
+                    what, n.id, node.lineno))
+
+    body = list(fn.body)
+    for pos, st in enumerate(body):
+        if returned:
+            raise TranslateError("getDeltas: code after return (line %d)" % st.lineno)
+        if _is_doc(st):
             continue
-        if isinstance(st, ast.Expr) and isinstance(st.value, ast.Call) and \
-                isinstance(st.value.func, ast.Attribute) and \
-                isinstance(st.value.func.value, ast.Name) and \
-                st.value.func.value.id == poly:
-            if st.value.func.attr != "changeBasis" or len(st.value.args) != 1 or \
-                    st.value.keywords or not isinstance(st.value.args[0], ast.Tuple):
-                raise TranslateError("getDeltas: operation on deltaFPoly (line %d)" %
-                                     st.lineno)
-            ops.append("PChangeBasis [%s]" % "; ".join(
-                _basis_term(e) for e in st.value.args[0].elts))
+        # --- the only conditional: the deltaF-is-None prologue ----------------------------
+        if isinstance(st, ast.If):
+            if prologue_seen or len(bound) != 2 or st.orelse or \
+                    ast.unparse(st.test) != "deltaF is None" or len(st.body) != 1 or \
+                    ast.unparse(st.body[0]) != "deltaF = self.solveBoltzmannEquations()":
+                raise TranslateError("getDeltas: conditional outside the subset (line %d): %s"
+                                     % (st.lineno, ast.unparse(st.test)[:50]))
+            prologue_seen = True
             continue
+        # --- return -------------------------------------------------------------------------
+        if isinstance(st, ast.Return):
+            v = st.value
+            if not (isinstance(v, ast.Call) and ast.unparse(v.func) == "BoltzmannResults"
+                    and not v.args):
+                raise TranslateError("getDeltas: return value (line %d)" % st.lineno)
+            kw = {k.arg: k.value for k in v.keywords}
+            if None in kw or "deltaF" not in kw or "Deltas" not in kw or \
+                    ast.unparse(kw["deltaF"]) != "deltaF" or \
+                    not isinstance(kw["Deltas"], ast.Name) or kw["Deltas"].id != deltas_name:
+                raise TranslateError("getDeltas: BoltzmannResults(deltaF=deltaF, Deltas=...) "
+                                     "expected (line %d)" % st.lineno)
+            for k, val in kw.items():
+                if k in ("deltaF", "Deltas"):
+                    continue
+                if not (isinstance(val, ast.Name) and val.id in aux):
+                    raise TranslateError("getDeltas: returned %s=%s" % (k, ast.unparse(val)))
+            returned = True
+            continue
+        # --- deltaFPoly.changeBasis(...) ------------------------------------------------------
+        if isinstance(st, ast.Expr):
+            c = st.value
+            if isinstance(c, ast.Call) and isinstance(c.func, ast.Attribute) and \
+                    isinstance(c.func.value, ast.Name) and poly is not None and \
+                    c.func.value.id == poly and c.func.attr == "changeBasis" and \
+                    len(c.args) == 1 and not c.keywords and isinstance(c.args[0], ast.Tuple):
+                ops.append("PChangeBasis [%s]" % "; ".join(
+                    _basis_term(e) for e in c.args[0].elts))
+                continue
+            raise TranslateError("getDeltas: expression statement (line %d): %s" % (
+                st.lineno, ast.unparse(st)[:60]))
         if not isinstance(st, ast.Assign) or len(st.targets) != 1:
-            if poly and poly in ast.unparse(st):
-                raise TranslateError("getDeltas: statement touching deltaFPoly (line %d)"
-                                     % st.lineno)
-            continue
+            raise TranslateError("getDeltas: statement outside the subset (line %d): %s" % (
+                st.lineno, ast.unparse(st)[:60]))
         tg, val = st.targets[0], st.value
-        # tuple unpack from a grid getter
-        if isinstance(tg, ast.Tuple) and isinstance(val, ast.Call) and \
-                isinstance(val.func, ast.Attribute) and _is_self_attr(val.func.value,
-                                                                      ["grid"]):
-            g = val.func.attr
-            if g not in getters or val.args or val.keywords or \
-                    len(tg.elts) != len(getters[g]):
-                raise TranslateError("getDeltas: grid getter %s (line %d)" % (
-                    ast.unparse(val), st.lineno))
-            for e, a in zip(tg.elts, getters[g]):
-                if isinstance(e, ast.Name):
+        # --- tuple targets ------------------------------------------------------------------
+        if isinstance(tg, ast.Tuple):
+            if not all(isinstance(e, ast.Name) for e in tg.elts):
+                raise TranslateError("getDeltas: unpack target (line %d)" % st.lineno)
+            if isinstance(val, ast.Call) and isinstance(val.func, ast.Attribute) and \
+                    _is_self_attr(val.func.value, ["grid"]):
+                g = val.func.attr
+                if g not in getters or val.args or val.keywords or \
+                        len(tg.elts) != len(getters[g]):
+                    raise TranslateError("getDeltas: grid getter %s (line %d)" % (
+                        ast.unparse(val), st.lineno))
+                for e, a in zip(tg.elts, getters[g]):
+                    if e.id == "_":
+                        continue
+                    fresh(e.id, "unpacked", st)
                     unpacked[e.id] = a
-            continue
+                continue
+            if isinstance(val, ast.Call) and _is_self_attr(val.func) and \
+                    [ast.unparse(a) for a in val.args] == ["deltaF"] and not val.keywords:
+                for e in tg.elts:
+                    fresh(e.id, "aux", st)
+                    aux.add(e.id)
+                continue
+            raise TranslateError("getDeltas: tuple assignment (line %d)" % st.lineno)
         if not isinstance(tg, ast.Name):
-            continue
+            raise TranslateError("getDeltas: store to %s (line %d)" % (
+                ast.unparse(tg)[:40], st.lineno))
         name = tg.id
-        # Polynomial construction
+        # --- observers of deltaF (error estimates) -----------------------------------------
+        if isinstance(val, ast.Call) and _is_self_attr(val.func) and \
+                [ast.unparse(a) for a in val.args] == ["deltaF"] and not val.keywords:
+            fresh(name, "aux", st)
+            aux.add(name)
+            continue
+        # --- particles = self.offEqParticles --------------------------------------------------
+        if _is_self_attr(val, ["offEqParticles"]):
+            fresh(name, "particles", st)
+            particles_name = name
+            continue
+        # --- field = self.background.fieldProfiles.takeSlice(1, -1, axis=...overFieldPoints) --
+        if ast.unparse(val) == "self.background.fieldProfiles.takeSlice(1, -1, " \
+                               "axis=self.background.fieldProfiles.overFieldPoints)":
+            fresh(name, "field", st)
+            field_name = name
+            continue
+        # --- Polynomial construction ---------------------------------------------------------
         if isinstance(val, ast.Call) and isinstance(val.func, ast.Name) and \
                 val.func.id == "Polynomial":
             a = val.args
             if len(a) != 5 or val.keywords or ast.unparse(a[0]) != "deltaF" or \
                     ast.unparse(a[1]) != "self.grid" or not isinstance(a[2], ast.Tuple) \
                     or not isinstance(a[3], ast.Tuple) or \
-                    not isinstance(a[4], ast.Constant):
+                    not isinstance(a[4], ast.Constant) or poly is not None:
                 raise TranslateError("getDeltas: Polynomial(...) shape")
+            fresh(name, "poly", st)
             poly = name
             dirs = [ast.literal_eval(e) for e in a[3].elts]
             endpoints = bool(a[4].value)
             ops.append("PNew [%s]" % "; ".join(_basis_term(e) for e in a[2].elts))
             continue
-        # integrate
+        # --- integrate -------------------------------------------------------------------------
         if isinstance(val, ast.Call) and isinstance(val.func, ast.Attribute) and \
-                isinstance(val.func.value, ast.Name) and val.func.value.id == poly:
+                isinstance(val.func.value, ast.Name) and poly is not None and \
+                val.func.value.id == poly:
             if val.func.attr != "integrate" or len(val.args) != 2 or val.keywords:
                 raise TranslateError("getDeltas: %s" % ast.unparse(val)[:50])
             axes = list(ast.literal_eval(val.args[0]))
+            only_names(val.args[1], set(bcast) | {s_.targets[0].id for s_ in scal} | {"np"},
+                       "integration weight")
+            fresh(name, "moment", st)
             weights[name] = (axes, val.args[1])
             ops.append("PIntegrate [%s]" % "; ".join("%d%%nat" % x for x in axes))
             continue
-        # BoltzmannDeltas(...)
+        # --- BoltzmannDeltas(...) --------------------------------------------------------------
         if isinstance(val, ast.Call) and isinstance(val.func, ast.Name) and \
                 val.func.id == "BoltzmannDeltas":
-            if val.args or not all(isinstance(k.value, ast.Name) for k in val.keywords):
+            if val.args or not all(isinstance(k.value, ast.Name) and k.arg
+                                   for k in val.keywords) or deltas_name is not None:
                 raise TranslateError("getDeltas: BoltzmannDeltas(...) shape")
+            fresh(name, "deltas", st)
+            deltas_name = name
             fields = {k.arg: k.value.id for k in val.keywords}
             continue
-        # broadcast views
+        # --- broadcast views -------------------------------------------------------------------
         b = _bcast_axes(val)
         if b is not None:
             base, axes = b
             if isinstance(base, ast.Attribute) and _is_self_attr(base.value, ["grid"]) \
                     and base.attr in ARRAYS:
+                fresh(name, "bcast", st)
                 bcast[name] = ("grid", base.attr, axes)
-            elif isinstance(base, ast.Name) and base.id in unpacked:
+            elif isinstance(base, ast.Name) and base.id in unpacked and base.id == name:
+                fresh(name, "bcast", st)
+                bound[name] = "bcast"
                 bcast[name] = ("grid", unpacked[base.id], axes)
-            elif "msqVacuum(field)" in ast.unparse(base) and axes == [0, 1]:
+            elif axes == [0, 1] and particles_name and field_name and ast.unparse(base) == \
+                    "np.array([particle.msqVacuum(%s) for particle in %s])" % (
+                        field_name, particles_name):
+                fresh(name, "bcast", st)
                 bcast[name] = ("msq", None, axes)
             else:
                 raise TranslateError("getDeltas: broadcast of %s (line %d)" % (
                     ast.unparse(base)[:50], st.lineno))
             continue
-        # scalar formulas over the broadcast views
-        used = {n.id for n in ast.walk(val) if isinstance(n, ast.Name)}
-        if used & (set(bcast) | {s.targets[0].id for s in scal}):
-            scal.append(st)
+        # --- scalar formulas over the broadcast views (anything else fails in pyrx) --------------
+        only_names(val, {k for k, v in bound.items() if v == "bcast"} |
+                   {s_.targets[0].id for s_ in scal} | {"np"}, "formula for %s" % name)
+        fresh(name, "scalar", st)
+        e0 = pyrx.Env()
+        for p_ in list(bcast) + [s_.targets[0].id for s_ in scal]:
+            e0.v[p_] = p_
+        tr.expr(val, e0)          # fail closed on anything pyrx cannot express
+        scal.append(st)
+    if not returned:
+        raise TranslateError("getDeltas: no final return")
+    for nm, kind in bound.items():
+        if kind == "unpacked":
+            raise TranslateError("getDeltas: %s is used without its broadcast axes" % nm)
     if poly is None or fields is None or not weights:
         raise TranslateError("getDeltas: Polynomial / integrate / BoltzmannDeltas not found")
     if dirs[0] != "Array" or endpoints:
         raise TranslateError("getDeltas: unexpected directions/endpoints")
-    fsl = ast.unparse(fn)
-    if "self.background.fieldProfiles.takeSlice(1, -1, axis=" not in fsl:
-        raise TranslateError("getDeltas: the mass is not taken at the interior z nodes")
+    if not any(k == "msq" for k, _, _ in bcast.values()):
+        raise TranslateError("getDeltas: the mass array was not recognised")
     params = list(bcast)
     env = pyrx.Env()
     for p in params:
@@ -668,6 +921,62 @@ def gen_tmunu(eom_src, helpers_src):
     return "\n".join(out), tr, dict(reads=reads)
 
 
+# ------------------------------------------------------------------------------------
+# plumbing around getDeltas: where msq and the particle list come from (facts, fail closed)
+
+def gen_plumbing(boltz_src, eom_src):
+    cls = _class(ast.parse(boltz_src), "BoltzmannSolver")
+    facts = []
+    # setBackground installs a copy of the WHOLE background, then boosts it
+    fn = _method(cls, "setBackground")
+    body = [ast.unparse(st) for st in fn.body if not _is_doc(st)]
+    if [a.arg for a in fn.args.args] != ["self", "background"] or fn.decorator_list or \
+            len(body) != 2 or body[0] not in ("self.background = deepcopy(background)",
+                                              "self.background = copy.deepcopy(background)") \
+            or body[1] != "self.background.boostToPlasmaFrame()":
+        raise TranslateError("setBackground does not install a fresh copy of the whole "
+                             "background: %s" % " ; ".join(body)[:120])
+    facts.append("setBackground: self.background := deepcopy(background); boost")
+    # updateParticleList
+    fn = _method(cls, "updateParticleList")
+    body = [st for st in fn.body if not _is_doc(st)]
+    for st in body[:-1]:
+        if not (isinstance(st, ast.For) and all(isinstance(x, ast.Assert) for x in st.body)
+                and not st.orelse):
+            raise TranslateError("updateParticleList: statement (line %d)" % st.lineno)
+    if not body or ast.unparse(body[-1]) != "self.offEqParticles = offEqParticles":
+        raise TranslateError("updateParticleList does not install the given list")
+    facts.append("updateParticleList: self.offEqParticles := offEqParticles")
+    # who else writes these attributes
+    for f in cls.body:
+        if not isinstance(f, ast.FunctionDef):
+            continue
+        for n in ast.walk(f):
+            if isinstance(n, ast.Attribute) and isinstance(n.ctx, ast.Store):
+                tgt = ast.unparse(n)
+                if tgt.startswith("self.background") and f.name not in ("__init__",
+                                                                         "setBackground"):
+                    raise TranslateError("%s writes %s" % (f.name, tgt))
+                if tgt.startswith("self.offEqParticles") and f.name not in (
+                        "__init__", "updateParticleList"):
+                    raise TranslateError("%s writes %s" % (f.name, tgt))
+                if tgt.startswith("self.grid") and f.name != "__init__":
+                    raise TranslateError("%s writes %s" % (f.name, tgt))
+    # EOM.particles is the solver's list
+    ecls = _class(ast.parse(eom_src), "EOM")
+    binds = []
+    for f in ecls.body:
+        if isinstance(f, ast.FunctionDef):
+            for n in ast.walk(f):
+                if isinstance(n, ast.Assign) and any(
+                        ast.unparse(t) == "self.particles" for t in n.targets):
+                    binds.append((f.name, ast.unparse(n.value)))
+    if binds != [("__init__", "self.boltzmannSolver.offEqParticles")]:
+        raise TranslateError("EOM.particles bindings: %s" % binds)
+    facts.append("EOM.particles := boltzmannSolver.offEqParticles (in __init__ only)")
+    return facts
+
+
 PRELUDE = """From Coq Require Import Reals List String Bool Arith.
 From WG Require Import Lib.NumpySem Lib.Moments.
 Import ListNotations.
@@ -676,8 +985,19 @@ Local Open Scope R_scope.
 """
 
 
-def generate(grid_src, poly_src, boltz_src, eom_src, helpers_src):
+def generate(grid_src, poly_src, boltz_src, eom_src, helpers_src, package=None):
+    """`package`: {file name: source} of every module of the package (to find the subclasses
+    of Grid); the known subclass Grid3Scales is required."""
     g_txt, g_tr, getters = gen_grid(grid_src)
+    subs = find_grid_subclasses(package or {})
+    if package is not None:
+        if "Grid3Scales" not in subs:
+            raise TranslateError("class Grid3Scales(Grid) not found in the package")
+        extra = sorted(set(subs) - {"Grid3Scales"})
+        if extra:
+            raise TranslateError("subclasses of Grid outside the model: %s" % extra)
+        s_txt, s_tr = gen_grid_subclass(subs["Grid3Scales"][1], "Grid3Scales", grid_src, "g3")
+        g_txt = g_txt + "\n" + s_txt
     i_txt, i_tr = gen_integrate(poly_src)
     intw_params = {}
     for d in ("z", "pz", "pp"):
@@ -692,8 +1012,11 @@ def generate(grid_src, poly_src, boltz_src, eom_src, helpers_src):
     for nm, tr in (("grid.py", g_tr), ("polynomial.py", i_tr), ("boltzmann.py", b_tr),
                    ("equationOfMotion.py", t_tr)):
         spans[nm] = tr.spans
+    if package is not None:
+        spans[subs["Grid3Scales"][0]] = s_tr.spans
     facts.update(tfacts)
     facts["getters"] = getters
+    facts["plumbing"] = gen_plumbing(boltz_src, eom_src)
     text = PRELUDE + "\n".join([g_txt, i_txt, b_txt, t_txt]) + "\n"
     return text, spans, facts
 
@@ -701,7 +1024,11 @@ def generate(grid_src, poly_src, boltz_src, eom_src, helpers_src):
 if __name__ == "__main__":
     import sys
     import vlib
+    import os
+    pk = {f: open(os.path.join(vlib.SRC, f)).read() for f in sorted(os.listdir(vlib.SRC))
+          if f.endswith(".py")}
     t, sp, fc = generate(*[vlib.read_src(f) for f in (
-        "grid.py", "polynomial.py", "boltzmann.py", "equationOfMotion.py", "helpers.py")])
+        "grid.py", "polynomial.py", "boltzmann.py", "equationOfMotion.py", "helpers.py")],
+        package=pk)
     sys.stdout.write(t)
     sys.stderr.write(repr(fc) + "\n")
